@@ -133,6 +133,14 @@ static RunResult c15_exec(const Plan &p) {
             std::string ver = ver_name(pr.pc.version);
             bool any_dead = false;
             for (int role = 0; role < 2 && !res.violation; role++) {
+                res.count("aead_open_failures", o.aead_fail[role]);
+                if (o.aead_fail_survived[role]) {
+                    res.violate("decryption_failure_tolerated", std::string(role ? "srv" : "cli") + "," + ver + "," + o.aead_fail_survived_ctx[role],
+                                std::to_string(o.aead_fail_survived[role]) + " record(s) failed authenticated decryption inside the session and the session was not dead afterwards (no error, alert or close reported); "
+                                "the only undecryptable records a session may tolerate are those a TLS 1.3 server skips while rejecting early data");
+                }
+            }
+            for (int role = 0; role < 2 && !res.violation; role++) {
                 if (!o.death[role].dead) { continue; }
                 any_dead = true;
                 std::string ctx = std::string(role ? "srv" : "cli") + "," + ver + "," + o.death[role].kind;
